@@ -246,7 +246,7 @@ class BaseInput(BasePort):
         while True:
             try:
                 yield self.receive()
-            except OSError:
+            except (OSError, ValueError):
                 if self.closed:
                     # The port closed before or inside receive().
                     # (This makes the assumption that this is the reason,
